@@ -116,4 +116,13 @@ fn u19_tree_column_maintenance_reaches_every_table() {
 	assert!(ok(col.complete_plan(&mut *w)).is_some(), "U19.tree.complete_plan.no_error");
 	assert!(unsafe { CP_N } == 3, "U19.tree.complete_plan_reaches_every_value_table");
 }
+// a btree column without value tables (its callees are contracts in the harnesses that use it)
+pub(crate) fn mk_btree_table_empty() -> BTreeTable {
+	BTreeTable {
+		id: 0,
+		tables: RwLock::new(Vec::new()),
+		ref_counted: false,
+		compression: Compress::new(crate::compress::CompressionType::NoCompression, u32::MAX),
+	}
+}
 /*@@GENERATED:btree_mod@@*/
